@@ -159,7 +159,7 @@ theorem r11_unambiguous (d : Def) (m : Machine) (h : Accepted d m) (hg : m.Graph
     apply h3 s
     simp only [Static.markerNames, genTypestate, genMarkers, List.flatMap_append, List.flatMap_map, List.mem_append,
       List.mem_flatMap]
-    exact Or.inl (Or.inl (Or.inl (Or.inl ⟨s, hs, by simp⟩)))
+    exact Or.inl (Or.inl (Or.inl (Or.inl ⟨s, hs, by simp [Static.itemMarkerNames]⟩)))
   have hmid : ((m.outgoing s).map fun e => toSnake e.event).Nodup := (methodNames_sublist m s hs).nodup hnd
   -- snake_case is the identity on the (validated) event names of the edges
   have hmap : ((m.outgoing s).map fun e => toSnake e.event) = (m.outgoing s).map (·.event) := by
